@@ -60,6 +60,11 @@ impl<T> ObservableState<T> {
         cx: &Context<'_>,
     ) -> Poll<Option<()>> {
         let mut metadata = self.metadata.write().unwrap();
+        #[cfg(eyeball_verif)]
+        crate::verif::pause("poll_meta_locked");
+
+        #[cfg(eyeball_verif)]
+        let _pause_after_decision = PauseOnDrop("poll_decided");
 
         if metadata.version == 0 {
             Poll::Ready(None)
@@ -73,6 +78,8 @@ impl<T> ObservableState<T> {
     }
 
     pub(crate) fn set(&mut self, value: T) -> T {
+        #[cfg(eyeball_verif)]
+        crate::verif::pause("set_locked");
         let result = mem::replace(&mut self.value, value);
         self.incr_version_and_wake();
         result
@@ -114,6 +121,8 @@ impl<T> ObservableState<T> {
     /// "Close" the state – indicate that no further updates will happen.
     pub(crate) fn close(&self) {
         let mut metadata = self.metadata.write().unwrap();
+        #[cfg(eyeball_verif)]
+        crate::verif::pause("close_meta_locked");
         metadata.version = 0;
         // Clear the backing buffer for the wakers, no new ones will be added.
         wake(mem::take(&mut metadata.wakers));
@@ -123,6 +132,17 @@ impl<T> ObservableState<T> {
         let metadata = self.metadata.get_mut().unwrap();
         metadata.version += 1;
         wake(metadata.wakers.drain(..));
+    }
+}
+
+/// Pauses when dropped: declared after the metadata guard, so it runs while the guard is still held.
+#[cfg(eyeball_verif)]
+struct PauseOnDrop(&'static str);
+
+#[cfg(eyeball_verif)]
+impl Drop for PauseOnDrop {
+    fn drop(&mut self) {
+        crate::verif::pause(self.0);
     }
 }
 
